@@ -37,8 +37,8 @@ claim("C06", "exploration", E1,
       "bounded-exhaustive configuration enumeration (every num_tune 0..60 x presets x methods) on the real chains", "4/C06")
 
 claim("C16", "exploration", E1,
-      "Exhaustive over the option lattice (six presets x 2^4 store flags x store_mass_matrix x use_grad_based_estimate x dims 0/1/2[/5]) x divergence placements (every single draw and every pair of draws of a 12-draw history): names and order, value variant vs declared type, length vs declared dims, presence rules for non-event / divergence / transformation-update statistics, draw counter and chain id.",
-      "Trusted: the harness' reading of the Storable contract; divergences are injected through the density (recoverable error / huge logp drop); one diagonal Gaussian target per dimension.",
+      "Exhaustive over the option lattice (six presets x 2^4 store flags x store_mass_matrix x use_grad_based_estimate x dims 0/1/2[/5], diagonal Gaussian and - for the low-rank presets - a correlated one so that eigenvalues are retained) x divergence placements (every single draw and every pair of draws of a 12-draw history): names and order, value variant vs declared type, length vs declared dims, presence rules for non-event / divergence / transformation-update statistics, draw counter and chain id.",
+      "Trusted: the harness' reading of the Storable contract; divergences are injected through the density (recoverable error / huge logp drop); one diagonal (and one correlated) Gaussian target per dimension.",
       "bounded-exhaustive enumeration of the option lattice x fault placements on real chains", "4/C16")
 
 claim("C14", "exploration", E1,
@@ -52,7 +52,7 @@ claim("C15", "model_checking", E1,
       "exhaustive enumeration of flush-position subsets x crash points x write-completion timings on the real writers, reference = recorded rows", "4/C15")
 
 claim("C19", "exploration", E1,
-      "Six presets x default and every single-field substitution over a per-type alphabet (thorough: all pairs): JSON round trip is a fixed point that keeps every field (Debug field list vs JSON keys), and chains built from the round-tripped settings are bit-identical. The trace-metadata clause: the sampler_settings attribute written by the sync and async Zarr writers for every substituted settings value, read back with a fresh reader, equals the settings JSON.",
+      "Six presets x default and every single-field substitution over a per-type alphabet (thorough: all pairs): JSON round trip is a fixed point, the Debug rendering of the value is identical before and after, every field that holds a value appears in the JSON, and chains built from the round-tripped settings are bit-identical. The trace-metadata clause: the sampler_settings attribute written by the sync and async Zarr writers for every substituted settings value, read back with a fresh reader, equals the settings JSON.",
       "Trusted: serde_json; non-finite floats are outside the quantifier; chains are compared on one 3-d Gaussian for 30 (NUTS) / 10 (MCLMC) draws with a 200k-evaluation watchdog.",
       "bounded-exhaustive enumeration of field substitutions, differential oracle on real chains", "4/C19")
 
@@ -87,7 +87,7 @@ claim("C03", "model_checking", E1,
       "choice-tree exploration (deviation-bounded) of real chain histories over owned RNG/momentum seams, bit-exact differential oracle + reference NUTS", "4/C03")
 
 claim("C08", "model_checking", E1,
-      "The real estimators driven directly: diagonal exactness on Gaussians (d 1..6(12), condition numbers up to 1e12, every 3-/4-element draw multiset of a point lattice), low-rank whitening on rank-k perturbed covariances, every window of 3 draws x 3 gradients over the 8-value alphabet {0,1,-1,1e-300,1e300,NaN,+-inf} (524288 windows per diagonal mode, 46656 (262144) low-rank windows, all 64 initialiser inputs): scales finite and positive, log-determinant finite, invalid estimates keep the previous value bit-identically; closed loop fisher_distance after the last update.",
+      "The real estimators driven directly: diagonal exactness on Gaussians (d 1..6(12), condition numbers up to 1e12, every 3-/4-element draw multiset of a point lattice), low-rank whitening on rank-k perturbed covariances with the mean 0 / 1e3 / 2.5e6 standard deviations from the origin (translation invariance), every window of 3 draws x 3 gradients over the 8-value alphabet {0,1,-1,1e-300,1e300,NaN,+-inf} (524288 windows per diagonal mode, 46656 (262144) low-rank windows, all 64 initialiser inputs): scales finite and positive, log-determinant finite, invalid estimates keep the previous value bit-identically; closed loop fisher_distance after the last update.",
       "Trusted: exact Gaussian gradients; low-rank whitening judged to 2e-3 (gamma = 1e-5 regularisation) with eigval_cutoff 1 for rank > 0 (with the default cut-off only diagonal structure is exactly representable); the transformation mean is not covered by the property and only counted.",
       "value-alphabet exhaustive window enumeration + bounded-exhaustive draw-set enumeration on the real estimators", "4/C08")
 
